@@ -155,6 +155,10 @@ def solve_continuum(case, moved):
     left = np.where(np.abs(x0[:, 0]) < 1e-9)[0]
     right = np.where(np.abs(x0[:, 0] - L) < 1e-9)[0]
     top = np.where(np.abs(x0[:, 1] - h) < 1e-9)[0]
+    sL = float(case.get("scaleL", 1.0))
+    if sL != 1.0:                                  # scaled twin: change of length unit
+        move_mesh(mesh, sL * np.eye(3), np.zeros(3))
+        t = t * sL
     motion = {}
     if moved:
         if case.get("build", "coords") == "api":
@@ -253,18 +257,27 @@ def solve_beam(case, moved):
     dim = case["dim"]
     R, t = transform(case) if moved else (np.eye(3), np.zeros(3))
     det = float(np.linalg.det(R))
-    b, h = 13.0, 9.0
     mesher = Mesher()
-    section = mesher.Mesh_2D(Domain(Point(-b / 2, -h / 2), Point(b / 2, h / 2)))
+    sL = float(case.get("scaleL", 1.0))           # change of length unit (scaled twin)
+    Emod = 210000.0 * float(case.get("scaleE", 1.0))
+
+    def make_section(bh):
+        b_, h_ = bh[0] * sL, bh[1] * sL
+        return mesher.Mesh_2D(Domain(Point(-b_ / 2, -h_ / 2), Point(b_ / 2, h_ / 2)))
     if "points" in case:
         pts0 = [np.asarray(p, dtype=float) for p in case["points"]]
     else:
         d0 = np.asarray(case.get("dir", [1, 0, 0]), dtype=float)
         pts0 = [np.zeros(3), 120.0 * d0 / np.linalg.norm(d0)]
+    members = case.get("members") or [[k, k + 1] for k in range(len(pts0) - 1)]
+    pts0 = [p * sL for p in pts0]
+    t = t * sL
     ptsv = [R @ p + t for p in pts0]
     pts = [Point(*p) for p in ptsv]
     beams = []
-    for p1, p2, q1, q2 in zip(pts[:-1], pts[1:], pts0[:-1], pts0[1:]):
+    secs = case.get("sections") or [[13.0, 9.0]] * len(members)
+    for (i1, i2), bh in zip(members, secs):
+        p1, p2, q1, q2 = pts[i1], pts[i2], pts0[i1], pts0[i2]
         kw = {}
         if "yAxis" in case:
             kw["yAxis"] = tuple(R @ np.asarray(case["yAxis"], dtype=float))
@@ -274,17 +287,23 @@ def solve_beam(case, moved):
             y0 = np.cross([0.3, -0.5, 0.8], d)
             kw["yAxis"] = tuple(R @ (y0 / np.linalg.norm(y0)))
         line = Line(p1, p2, float(np.linalg.norm(q2 - q1)) / case.get("nL", 3))
-        beams.append(Models.Beam.Isotropic(dim, line, section, 210000.0, 0.3, **kw))
+        beams.append(Models.Beam.Isotropic(dim, line, make_section(bh), Emod, 0.3, **kw))
     mesh = mesher.Mesh_Beams(beams, elemType=case["elemType"])
     st = Models.Beam.BeamStructure(beams)
     simu = Simulations.Beam(mesh, st, useTimoshenko=case.get("timo", False), verbosity=False)
     mesh = simu.mesh
     simu.add_dirichlet(mesh.Nodes_Point(pts[0]), [0] * simu.Get_dof_n(), simu.Get_unknowns())
-    for p in pts[1:-1]:
-        simu.add_connection_fixed(mesh.Nodes_Point(p))
+    joints = [k for k in range(len(pts)) if sum(1 for m_ in members if k in m_) > 1]
+    for k in joints:
+        simu.add_connection_fixed(mesh.Nodes_Point(pts[k]))
+    for k in case.get("clamped", [])[1:]:
+        simu.add_dirichlet(mesh.Nodes_Point(pts[k]), [0] * simu.Get_dof_n(), simu.Get_unknowns())
     F = R @ np.asarray(case["F"], dtype=float)
-    tip = mesh.Nodes_Point(pts[-1])
+    tip = mesh.Nodes_Point(pts[case.get("loaded", len(pts) - 1)])
     simu.add_neumann(tip, [float(x) for x in F[:dim]], ["x", "y", "z"][:dim])
+    if case.get("lineload"):
+        ql = R @ np.asarray(case["lineload"], dtype=float) / sL
+        simu.add_lineLoad(mesh.nodes, [float(x) for x in ql[:dim]], ["x", "y", "z"][:dim])
     M = np.asarray(case.get("M", [0, 0, 0]), dtype=float)
     if np.abs(M).max() > 0:
         Mm = det * (R @ M)                       # moments are pseudo-vectors
@@ -463,6 +482,47 @@ def run_hyper(case):
     return res
 
 
+def run_beam_roll(case):
+    """an EXISTING, already solved simulation whose section is rolled about the member's own axis
+    (beam.yAxis = ...; nodes unmoved) vs the rolled problem built fresh"""
+    from EasyFEA import Mesher, Models, Simulations
+    from EasyFEA.Geoms import Domain, Point, Line
+    d = np.asarray(case.get("dir", [1.0, 0.4, 0.2]), dtype=float)
+    d = d / np.linalg.norm(d)
+    y0 = np.cross([0.3, -0.5, 0.8], d)
+    y0 = y0 / np.linalg.norm(y0)
+    phi = math.radians(case["roll"])
+    y1 = y0 * math.cos(phi) + np.cross(d, y0) * math.sin(phi)
+    F = np.asarray(case["F"], dtype=float)
+
+    def build(yAxis):
+        mesher = Mesher()
+        section = mesher.Mesh_2D(Domain(Point(-6.5, -3.0), Point(6.5, 3.0)))      # Iy != Iz
+        p1, p2 = Point(0, 0, 0), Point(*(120.0 * d))
+        beam = Models.Beam.Isotropic(3, Line(p1, p2, 40.0), section, 210000.0, 0.3, yAxis=tuple(yAxis))
+        mesh = mesher.Mesh_Beams([beam], elemType=case["elemType"])
+        simu = Simulations.Beam(mesh, Models.Beam.BeamStructure([beam]), useTimoshenko=case.get("timo", False), verbosity=False)
+        mesh = simu.mesh
+        simu.add_dirichlet(mesh.Nodes_Point(p1), [0] * simu.Get_dof_n(), simu.Get_unknowns())
+        simu.add_neumann(mesh.Nodes_Point(p2), [float(x) for x in F], ["x", "y", "z"])
+        return simu, beam
+
+    def sol(simu):
+        simu.Solve()
+        return np.asarray(simu.displacement, dtype=float).copy()
+    simu, beam = build(y0)
+    u_before = sol(simu)
+    beam.yAxis = tuple(y1)                 # roll the section on the existing simulation
+    u_rolled = sol(simu)
+    simu2, _ = build(y1)
+    u_fresh = sol(simu2)
+    e = float(np.abs(u_rolled - u_fresh).max() / np.abs(u_fresh).max())
+    changed = float(np.abs(u_fresh - u_before).max() / np.abs(u_fresh).max())
+    return {"err": e, "roll_changes_solution_by": changed,
+            "what": "displacements after rolling the section of an already solved simulation (beam.yAxis = ...) vs the rolled problem built fresh",
+            "sample": {"tip_existing": u_rolled[-6:].tolist(), "tip_fresh": u_fresh[-6:].tolist()}}
+
+
 def run_Bcheck(case):
     """per-node block of Get_B_e_pg vs the transcription used in C10_continuum.v"""
     from EasyFEA.FEM._group_elem import GroupElemFactory
@@ -502,6 +562,8 @@ def run_case(case):
             return run_motion(case)
         if case["kind"] == "hyper":
             return run_hyper(case)
+        if case["kind"] == "beam_roll":
+            return run_beam_roll(case)
         return {"raises": "unknown kind"}
     except Exception as ex:  # noqa
         import traceback
